@@ -8,12 +8,12 @@ package gbn
 import (
 	"bytes"
 	"encoding/json"
-	"runtime"
-	"strings"
-	"math"
 	"fmt"
+	"math"
 	"os"
+	"runtime"
 	"strconv"
+	"strings"
 	"time"
 )
 
@@ -143,8 +143,9 @@ func vAssert(c bool, msg string) {
 	}
 }
 
-func vFail(msg string)     { vFailures = append(vFailures, msg) }
-func vReach(label string)  {}
+func vFail(msg string)    { vFailures = append(vFailures, msg) }
+func vReach(label string) {}
+
 // vSynctest is set by the replay driver when the harness runs inside a
 // testing/synctest bubble: virtual time then advances by sleeping.
 var vSynctest bool
@@ -159,10 +160,10 @@ func vAdvance(d time.Duration) {
 	}
 }
 func vF32(name string) float32 { return math.Float32frombits(uint32(vNum(name))) }
-func vLiveTimers() int     { return 0 }
-func vLiveTickers() int    { return 0 }
-func vNowNs() int64        { return int64(vClock) }
-func vIsSymbolicRun() bool { return false }
+func vLiveTimers() int         { return 0 }
+func vLiveTickers() int        { return 0 }
+func vNowNs() int64            { return int64(vClock) }
+func vIsSymbolicRun() bool     { return false }
 func vPopcount8(x uint8) int {
 	n := 0
 	for ; x != 0; x &= x - 1 {
